@@ -13,6 +13,7 @@ import Rooc.DisplayItems
 import Rooc.Proofs.Field
 import Rooc.Proofs.DisplayPratt
 import Rooc.Proofs.DisplayText
+import Rooc.Proofs.DisplayParse
 import Mathlib.Data.Rat.Floor
 import Mathlib.Tactic.Linarith
 namespace Rooc.Props.C12
@@ -71,6 +72,87 @@ example : items none (.bin .sub (.var "x") (.bin .add (.var "y") (.num 1)) : Exp
 /-- … while `(x - 3) - 1` and `x + y * 2` need none. -/
 example : items none (.bin .sub (.bin .sub (.var "x") (.num 3)) (.num 1) : Exp Int) =
     [.atom (.var "x"), .infix .sub, .atom (.num 3), .infix .sub, .atom (.num 1)] := by rfl
+
+/-! ### the rendering is read back by the parser model (C09) -/
+
+/-- **`parse (display e) = e`**: for every compiled expression of the fragment `Frag` — numbers as
+opaque tokens under `NumOk` (an integer literal within `i64` or a float literal `ddd.ddd`, read back to
+the same value), plain identifiers that are not keywords, `+ - * /` (operands not bare logic nodes),
+unary minus, `not`, and the two-operand logic nodes `into_exp` builds — the TEXT that the ported
+`impl Display for Exp` produces is cut by the lexer model and parsed by the parser model of C09 (PEG rules
+of `exp`, pest's Pratt loop over the regenerated table) into the tree `toP e`, and `PreExp::into_exp`
+maps that tree back to `e` itself.  (Instance of C09's `printer_roundtrip`: the tokens of `Display` are a
+rendering with a superset of the needed parentheses.)
+Outside the fragment, by the limits of the lexer model: `abs{}`/`min{}`/`max{}` blocks (braces), names with
+an inner underscore or `$`-prefixed (`x_1`, `$abs_0`), negative number literals (they read back as unary
+minus), n-ary `and`/`or` of other arities; and a logic node directly under `+ - * /`, which `Display` does
+not parenthesise (`parse_display_logic_operand_counterexample`). -/
+theorem parse_display_exp {α : Type} [Arith α] (tok : α → String) (numOf : String → α) (e : Exp α)
+    (h : Frag tok numOf e) :
+    Syntax.parseText (displayExp tok e).toList = .ok (toP tok e) ∧ intoExp numOf (toP tok e) = some e := by
+  obtain ⟨items, hk, _⟩ := tkShow tok numOf e h none
+  refine ⟨?_, intoExp_toP tok numOf e h⟩
+  simp only [Syntax.parseText, lex_displayExp tok numOf e h, Rooc.Syntax.Proofs.parse_tk hk]
+
+/-- **`parse (display constraint) = constraint`**: the TEXT that the ported `impl Display for Constraint`
+produces for a compiled constraint of the fragment (optional plain name, expressions in `Frag`, a comparison
+or a bare logic assertion) is cut by the lexer model into tokens that the `constraint` rule of the program
+parser model (C11, `Syntax/Program.lean`: `constraint_name`, `tagged_exp`, `comparison`, `parse_constraint`)
+reads as the `PreConstraint` with the same name, the same comparison / assertion flag and the trees
+`toP lhs`, `toP rhs` — which `into_exp` maps back to the constraint's own expressions. -/
+theorem parse_display_constraint {α : Type} [Arith α] (tok : α → String) (numOf : String → α) (c : Constraint α)
+    (h : FragC tok numOf c) :
+    Syntax.lex (displayConstraint tok c).toList = .ok (constraintDToks tok c)
+    ∧ Syntax.parseConstraint (constraintDToks tok c) = .ok (toPConstraint tok c, [])
+    ∧ intoExp numOf (toPConstraint tok c).lhs = some c.lhs
+    ∧ (c.isAssert = false → intoExp numOf (toPConstraint tok c).rhs = some c.rhs) := by
+  refine ⟨lex_displayConstraint tok numOf c h, parseConstraint_dToks tok numOf c h, intoExp_toP tok numOf c.lhs h.2.1, ?_⟩
+  intro ha
+  have hr : Frag tok numOf c.rhs := by
+    rcases h.2.2 with hr | hr
+    · rw [ha] at hr; cases hr
+    · exact hr
+  simpa [toPConstraint, ha] using intoExp_toP tok numOf c.rhs hr
+
+/-- non-vacuity: `x - (3 - -y) * 3 <= …`-style expression with the token `3` for every number -/
+example : Frag (fun _ : Ext K => "3") (fun _ => (Ext.fin 0 : Ext K))
+    (.bin .sub (.var "x") (.bin .mul (.bin .sub (.num (.fin 3)) (.un .neg (.var "y"))) (.num (.fin 3)))) := by
+  have hn : NumOk (fun _ : Ext K => "3") (fun _ => (Ext.fin 0 : Ext K)) (.fin 3) :=
+    Or.inl ⟨by show isIntText "3" = true; decide, by show Syntax.digitsToNat "3".toList ≤ Syntax.i64Max; decide,
+      by show Arith.ofInt ((Syntax.digitsToNat "3".toList : Nat) : Int) = (Ext.fin 3 : Ext K)
+         have : Syntax.digitsToNat ['3'] = 3 := by decide
+         simp [Arith.ofInt, this]⟩
+  have hx : Rooc.Syntax.Proofs.plainWord "x".toList = true ∧ Syntax.isKeyword "x" = false := ⟨by decide, by decide⟩
+  have hy : Rooc.Syntax.Proofs.plainWord "y".toList = true ∧ Syntax.isKeyword "y" = false := ⟨by decide, by decide⟩
+  exact ⟨rfl, rfl, rfl, hx, rfl, rfl, rfl, ⟨rfl, rfl, rfl, hn, hy⟩, hn⟩
+
+/-- non-vacuity of `parse_display_constraint`: `cap: x <= 3` -/
+example : FragC (fun _ : Ext K => "3") (fun _ => (Ext.fin 0 : Ext K))
+    ⟨"cap", .var "x", .le, .num (.fin 3), false⟩ := by
+  have hn : NumOk (fun _ : Ext K => "3") (fun _ => (Ext.fin 0 : Ext K)) (.fin 3) :=
+    Or.inl ⟨by show isIntText "3" = true; decide, by show Syntax.digitsToNat "3".toList ≤ Syntax.i64Max; decide,
+      by show Arith.ofInt ((Syntax.digitsToNat "3".toList : Nat) : Int) = (Ext.fin 3 : Ext K)
+         have : Syntax.digitsToNat ['3'] = 3 := by decide
+         simp [Arith.ofInt, this]⟩
+  have h1 : Syntax.Proofs.plainWord "cap".toList = true := by decide
+  have h2 : Syntax.isKeyword "cap" = false := by decide
+  have h3 : Syntax.Proofs.plainWord "x".toList = true := by decide
+  have h4 : Syntax.isKeyword "x" = false := by decide
+  exact ⟨Or.inr ⟨h1, h2⟩, ⟨h3, h4⟩, Or.inr hn⟩
+
+/-- A logic node directly under an arithmetic operator is rendered without parentheses:
+`(b and d) + x` is printed `b and d + x`, whose tokens read back as `b and (d + x)`. -/
+theorem parse_display_logic_operand_counterexample :
+    displayExp (fun _ : Int => "?") (.bin .add (.and [.var "b", .var "d"]) (.var "x")) = "b and d + x"
+    ∧ Syntax.parseToks [.word "b", .word "and", .word "d", .plus, .word "x"] =
+        .ok (.bin .and (.var "b") (.bin .add (.var "d") (.var "x"))) := by
+  refine ⟨by simp [displayExp, showE, joinWith, logicOperand, isLeaf, binOpStr], ?_⟩
+  have hb : Rooc.Syntax.Proofs.Atom (.var "b") (.word "b") := .var "b" (by decide)
+  have hd : Rooc.Syntax.Proofs.Atom (.var "d") (.word "d") := .var "d" (by decide)
+  have hx : Rooc.Syntax.Proofs.Atom (.var "x") (.word "x") := .var "x" (by decide)
+  exact Rooc.Syntax.Proofs.parse_tk (Rooc.Syntax.Proofs.Tk.bin (.atom hb)
+    (Rooc.Syntax.Proofs.Tk.bin (.atom hd) (.atom hx) (Or.inl rfl) (Or.inl rfl) (by simp [Rooc.Syntax.Proofs.binToks]))
+    (Or.inl rfl) (Or.inr (by decide)) (by simp [Rooc.Syntax.Proofs.binToks]))
 
 /-! ### the sign of a rendered term -/
 
